@@ -37,6 +37,7 @@ const (
 	OpReadFD   = "readfd"
 	OpCloseFD  = "closefd"
 	OpRmRF     = "rmrf"       // remove a tree bottom-up, one syscall per step
+	OpDeepMk   = "mkdir-deep" // build a chain of directories whose absolute path is N bytes long (component by component, through descriptors); later ops name it "@deep"
 	OpLeaveRm  = "leave-rmrf" // leave the run's working directory (Cfg.Cwd) for its parent, then remove it like rmrf (a directory that is some process's cwd is not freed by rmdir)
 	OpMkfifo   = "mkfifo"
 	// API operations
